@@ -16,7 +16,7 @@ variable (G : DerivationTree P S V M → Prop) (U : P → V → Prop) (HS : Prop
 /-- postcondition of `buildRecursive` on the node `derived terms sid c1 c2` -/
 structure PostBR (r r' : Reporter P S V M) (terms : List (P × Term S)) (sid : Option Nat)
     (c1 c2 : DerivationTree P S V M) : Prop where
-  inv : RInv G U HS r'
+  inv : RepInv G U HS r'
   le : Le r r'
   last : ∃ l, r'.lines.getLast? = some l ∧ l.step.conclusion = some terms ∧ (sid = none → l.refs = [])
   key : ∀ id, sid = some id → SmallMap.containsKey r'.sharedWithRef id = true
@@ -25,7 +25,7 @@ structure PostBR (r r' : Reporter P S V M) (terms : List (P × Term S)) (sid : O
 /-- postcondition of `buildRecursiveHelper` -/
 structure PostH (r r' : Reporter P S V M) (terms : List (P × Term S)) (sid : Option Nat)
     (c1 c2 : DerivationTree P S V M) : Prop where
-  inv : RInv G U HS r'
+  inv : RepInv G U HS r'
   le : Le r r'
   last : ∃ l, r'.lines.getLast? = some l ∧ l.step.conclusion = some terms ∧
     (l.refs = [] ∨ ∃ id, sid = some id ∧ SmallMap.containsKey r'.sharedWithRef id = true)
@@ -34,28 +34,28 @@ structure PostH (r r' : Reporter P S V M) (terms : List (P × Term S)) (sid : Op
 /-- postcondition of `reportOneEach` and `reportRecurseOneEach` -/
 structure PostOE (r r' : Reporter P S V M) (d : DerivationTree P S V M) (e : External P S V M)
     (cur : List (P × Term S)) : Prop where
-  inv : RInv G U HS r'
+  inv : RepInv G U HS r'
   le : Le r r'
   last : ∃ l, r'.lines.getLast? = some l ∧ l.step.conclusion = some cur ∧ l.refs = []
   named : ∀ e' ∈ d.externals ++ [e], e' ∈ namedAll r'.lines
 
 def SpecBR (fuel : Nat) : Prop :=
-  ∀ (r : Reporter P S V M) terms sid c1 c2 r', G (.derived terms sid c1 c2) → RInv G U HS r →
+  ∀ (r : Reporter P S V M) terms sid c1 c2 r', G (.derived terms sid c1 c2) → RepInv G U HS r →
     Reporter.buildRecursive fuel r terms sid c1 c2 = .ok r' → PostBR G U HS r r' terms sid c1 c2
 
 def SpecH (fuel : Nat) : Prop :=
-  ∀ (r : Reporter P S V M) terms sid c1 c2 r', G (.derived terms sid c1 c2) → RInv G U HS r →
+  ∀ (r : Reporter P S V M) terms sid c1 c2 r', G (.derived terms sid c1 c2) → RepInv G U HS r →
     Reporter.buildRecursiveHelper fuel r terms sid c1 c2 = .ok r' → PostH G U HS r r' terms sid c1 c2
 
 def SpecOE (fuel : Nat) : Prop :=
   ∀ (r : Reporter P S V M) dterms dsid dc1 dc2 e cur r', G (.derived dterms dsid dc1 dc2) →
-    (HS → Entails U [dterms, e.terms] cur) → RInv G U HS r →
+    (HS → Entails U [dterms, e.terms] cur) → RepInv G U HS r →
     Reporter.reportOneEach fuel r dterms dsid dc1 dc2 e cur = .ok r' →
     PostOE G U HS r r' (.derived dterms dsid dc1 dc2) e cur
 
 def SpecROE (fuel : Nat) : Prop :=
   ∀ (r : Reporter P S V M) dterms dsid dc1 dc2 e cur r', G (.derived dterms dsid dc1 dc2) →
-    (HS → Entails U [dterms, e.terms] cur) → RInv G U HS r →
+    (HS → Entails U [dterms, e.terms] cur) → RepInv G U HS r →
     Reporter.reportRecurseOneEach fuel r dterms dsid dc1 dc2 e cur = .ok r' →
     PostOE G U HS r r' (.derived dterms dsid dc1 dc2) e cur
 
@@ -129,7 +129,7 @@ theorem stepBR (fuel : Nat) (ih : SpecH G U HS fuel) : SpecBR G U HS (fuel + 1) 
           exact hle1.named e (ph.named e he)
 
 omit hGcons in
-theorem PostOE.of_push {r r1 : Reporter P S V M} (hinv : RInv G U HS r1) (hle : Le r r1)
+theorem PostOE.of_push {r r1 : Reporter P S V M} (hinv : RepInv G U HS r1) (hle : Le r r1)
     {st : Step P S V M} (hst : StepOK U HS r1.lines st) {d : DerivationTree P S V M}
     {e : External P S V M} {cur : List (P × Term S)} (hc : st.conclusion = some cur)
     (hnamed : ∀ e' ∈ d.externals ++ [e], e' ∈ namedAll r1.lines ∨ e' ∈ st.namedExternals) :
@@ -141,7 +141,7 @@ theorem PostOE.of_push {r r1 : Reporter P S V M} (hinv : RInv G U HS r1) (hle : 
   · exact named_push_self r1 st e' h
 
 omit hGcons in
-theorem PostH.of_push {r r1 : Reporter P S V M} (hinv : RInv G U HS r1) (hle : Le r r1)
+theorem PostH.of_push {r r1 : Reporter P S V M} (hinv : RepInv G U HS r1) (hle : Le r r1)
     {st : Step P S V M} (hst : StepOK U HS r1.lines st) {terms : List (P × Term S)} {sid : Option Nat}
     {c1 c2 : DerivationTree P S V M} (hc : st.conclusion = some terms)
     (hnamed : ∀ e' ∈ c1.externals ++ c2.externals, e' ∈ namedAll r1.lines ∨ e' ∈ st.namedExternals) :
